@@ -214,3 +214,15 @@ prop("C13", "exploration",
      [dict(name="c13_g%d" % g, sources=["c13_safety.cpp"], flavour="asan", flags=["-DZOO_GROUP=%d" % g], deps=ZOO_DEPS + ["common/fachook.hpp"]) for g in (0, 1, 2)] +
      [dict(name="c13n_g%d" % g, sources=["c13_safety.cpp"], flavour="asan-ndebug", flags=["-DZOO_GROUP=%d" % g], deps=ZOO_DEPS + ["common/fachook.hpp"]) for g in (0, 1, 2)],
      assumptions=TRUST + ["termination is decided by the operator-application bound enforced inside the wrapper, never by wall-clock time"])
+
+
+# ------------------------------------------------------------------------------------------ C14
+prop("C14", "fault_enumeration",
+     "for each of 17 solver configurations and 6 inputs (24 thorough; clean random, few distinct eigenvalues, identity + rank one, block diagonal with repeated blocks - the last three exhaust the "
+     "Krylov space so that the restart path runs): the fault-free init(); compute() gives N operator applications and a baseline snapshot; then for EVERY k in 1..N (A-operator, and separately every "
+     "application of the B-operator of generalized problems) the wrapper throws a private exception with a token at application k: the same exception object type and token must arrive at the caller "
+     "(from init() iff k <= 2), and a following init(); compute() on the same solver must reproduce the baseline bit for bit; plus 120 (600) pairs of faults; allocated bytes before/after all cycles "
+     "and LeakSanitizer at exit. An evaluation = one faulted run; non-trivial = a (solver, input) whose enumeration ran; distinct by (solver, input, n, nev, ncv, N, maxit)",
+     [dict(name="c14_g%d" % g, sources=["c14_fault.cpp"], flavour="asan", flags=["-DZOO_GROUP=%d" % g], deps=ZOO_DEPS + ["common/fachook.hpp"]) for g in (0, 1, 2)],
+     assumptions=TRUST + ["the fault is injected by a wrapper around the user's operator; PartialSVDSolver is not covered because its operator is internal"],
+     exhaustive=True)
